@@ -34,6 +34,21 @@ PROPS["C15"] = {
     "technique": "Lean 4 symbolic execution proof over translator-generated asm instruction lists + valgrind-observed correspondence run",
 }
 
+PROPS["C16"] = {
+    "lean": ["NB.Props.C16"],
+    "gens": ["c16"],
+    "profiles": ["release"],
+    "special": special.c16_special,
+    "trusted": ["cargo/rustc as the judge of 'this configuration compiles'",
+                "the harness's feature plumbing (harness/Cargo.toml features std/rand/serde forward to num-bigint)"],
+    "assumptions": COMMON_ASSUME + ["compile success is observed by exhaustive enumeration of the finite configuration set, not proved"],
+    "level": "proof",
+    "level_text": "PARTIAL by nature: the model has no feature parameter at all (every model function is configuration-free by construction), and the only feature-conditional computations are (1) Vec capacity estimates in radix output, which are not an input of any model function, and (2) the initial guess of the root iteration, for which the theorem root_config_independent (C11: the result is the floor root for EVERY guess >= 1) gives equality of results across std/no_std. That every documented configuration COMPILES and produces byte-identical transcripts is observed by exhaustive enumeration: cargo check of all 20 feature sets of ci/test_full.sh and harness transcripts (cross-section of all streams, all radix/root cases) across std/no_std x features x debug/release.",
+    "level_note": "Trusted: Lean kernel; cargo/rustc; harness feature plumbing. Compile success and transcript identity are exhaustive observations over the finite configuration set.",
+    "technique": "Lean 4 configuration-independence theorems + exhaustive enumeration of the finite feature-configuration set (cargo check + byte-identical transcripts)",
+    "claimed": False,
+}
+
 NOT_CLAIMED = {}
 
 if __name__ == "__main__":
